@@ -380,6 +380,14 @@ func verifyFunction(w *World, fn *ssa.Function, unroll int) *FuncResult {
 				}
 			}
 		}
+		// a frame clause is also a guard: "no call with unknown effects here" has no obligation on a tree that has no such
+		// call; listing the clause lets the baseline lock it, so that a change which introduces one is reported
+		if spec.Modifies != nil || spec.Pure {
+			fr.GuardClauses = append(fr.GuardClauses, fr.Name+" :: modifies")
+		}
+		if len(spec.Preserves) > 0 {
+			fr.GuardClauses = append(fr.GuardClauses, fr.Name+" :: preserves")
+		}
 		for anchor, cl := range spec.SetAts {
 			for _, c := range cl {
 				if g.setAtUse[c] == 0 {
